@@ -309,14 +309,24 @@ class Renderer:
 
     def patch_lines(self, d):
         kw = 'struct' if d.kind == 'struct' else ('union_closed' if d.closed else 'union')
-        L = [Line(0, 'patch %s %s' % (kw, d.name))]
-        for f in d.patch_fields:
-            L.extend(self.field_lines(f, 1, self.inline_map.get(id(f))))
-        patched = {f.name for f in d.patch_fields}
-        for ex in d.examples:
-            names = [n for n in ex.values if n in patched]
-            if names:
-                L.extend(self.example_lines(ex, 1, names, with_doc=False))
+        # the reference layout writes a patch of several fields as two consecutive patch blocks of the
+        # same type (a type may be patched more than once; the fields append in order)
+        groups = [list(d.patch_fields)]
+        if self.lay.reference and len(d.patch_fields) >= 2 and len(d.name) % 2 == 0:
+            k = len(d.patch_fields) // 2
+            groups = [d.patch_fields[:k], d.patch_fields[k:]]
+        L = []
+        for gi, fields in enumerate(groups):
+            if gi:
+                L.append(Line(0, ''))
+            L.append(Line(0, 'patch %s %s' % (kw, d.name)))
+            for f in fields:
+                L.extend(self.field_lines(f, 1, self.inline_map.get(id(f))))
+            patched = {f.name for f in fields}
+            for ex in d.examples:
+                names = [n for n in ex.values if n in patched]
+                if names:
+                    L.extend(self.example_lines(ex, 1, names, with_doc=False))
         return L
 
     # ---- layout ----
